@@ -339,6 +339,176 @@ def python_obligations(ctx, files):
         ctx.obligation('translate the time-step rule _compute_dt (maxVM expression, dt = timescale_factor/maxVM)', False, 'translator', str(e))
     files.append(('C02_ob_python', '\n'.join(body) + '\n', names))
 
+# ------------------------------------------------------------------------------------------------------------------
+# The Python coefficient assembly of the constant-parameter drivers (numpy slice arithmetic) = the model's precomputed
+# coefficients coef_a / coef_b0 / coef_c, index class by index class (translator harness/translate/npslice.py,
+# helper lemmas and tactics coq/theories/Proofs/PrecalcPython.v).
+
+PY_DRIVERS = {1: '_one_pop_const_params', 2: '_two_pops_const_params', 3: '_three_pops_const_params'}
+PY_HDR = '''From Coq Require Import Reals List Lra Lia Arith Bool.
+From Dadi Require Import Base.Num Base.NumR Model.Tridiag Model.Scheme Proofs.PrecalcPython.
+Import ListNotations. Local Open Scope R_scope.
+'''
+PY_SYM = ['i0', 'i1', 'i2']
+
+def _py_wiring(d, k):
+    """what the model expects on axis k of the d-population driver, in the driver's own parameter names"""
+    sfx = '' if d == 1 else str(k + 1)
+    return {'nu': 'nu' + sfx, 'gamma': 'gamma' + sfx, 'h': 'h' + sfx, 'beta': 'beta' if d == 1 else '1',
+            'ms': ['m%d%d' % (k + 1, j + 1) for j in range(d) if j != k], 'others': [j for j in range(d) if j != k]}
+
+def _py_classes(d, k, role):
+    """index classes to evaluate: list of (tag, index tuple, c0 text, c1 text).  Swept axis k: first / generic interior /
+    last point.  Other axes: an arbitrary index where the boundary placement cannot reach (a, c everywhere; b at an
+    interior point), else every combination of first / interior / last (b at the first and at the last point)."""
+    from harness.translate import npslice as nps
+    import itertools
+    pts = [('first', ('c', 0)), ('mid', ('s', PY_SYM[k], 0)), ('last', ('e', 0))]
+    others = [j for j in range(d) if j != k]
+    out = []
+    for pn, p in pts:
+        if role != 'b' or pn == 'mid' or not others:
+            idx = [None] * d
+            idx[k] = p
+            for j in others:
+                idx[j] = ('a', PY_SYM[j])
+            c0 = c1 = 'true' if not others else None      # None: irrelevant (quantified)
+            out.append((pn, tuple(idx), c0, c1))
+        else:
+            for combo in itertools.product(['first', 'mid', 'last'], repeat=len(others)):
+                idx = [None] * d
+                idx[k] = p
+                for j, cn in zip(others, combo):
+                    idx[j] = {'first': ('c', 0), 'mid': ('s', PY_SYM[j], 0), 'last': ('e', 0)}[cn]
+                c0 = 'true' if all(cn == 'first' for cn in combo) else 'false'
+                c1 = 'true' if all(cn == 'last' for cn in combo) else 'false'
+                out.append((pn + '_' + ''.join(cn[0] for cn in combo), tuple(idx), c0, c1))
+    return out
+
+def python_assembly_obligations(ctx, files):
+    from harness.translate import npslice as nps
+    path = os.path.join(DADI, 'Integration.py')
+    try:
+        module = nps.Module(path)
+    except (OSError, SyntaxError) as e:
+        ctx.obligation('read Integration.py for the coefficient assembly', False, 'translator', str(e)); return
+    for d in (1, 2, 3):
+        fname = PY_DRIVERS[d]
+        what = 'translate the coefficient assembly of %s (numpy slice program -> index-class terms)' % fname
+        try:
+            ex, env, params, tail = nps.run_assembly(module, fname, d)
+            scal = [p for p in params[2:]]
+            cands = set(n for n, v in env.items() if isinstance(v, nps.Arr) and v.mutable)
+            wiring = nps.tail_wiring(tail, d, cands)
+            per_axis = {}
+            for k in range(d):
+                w = _py_wiring(d, k)
+                need = [w['nu'], w['gamma'], w['h']] + w['ms'] + (['beta'] if d == 1 else [])
+                for n in need:
+                    if n not in scal:
+                        raise nps.Refuse('%s has no parameter %s' % (fname, n))
+                if w['nu'] not in ex.nonzero:
+                    raise nps.Refuse('%s does not reject %s = 0' % (fname, w['nu']))
+                lem = []
+                for role, arrname in zip('abc', wiring[k]):
+                    arr = env.get(arrname)
+                    if not isinstance(arr, nps.Arr) or arr.shape != (('n', 0),) * d:
+                        raise nps.Refuse('%s handed to the kernel of axis %s is not an array of the shape of phi' % (arrname, AX[k]))
+                    for tagc, idx, c0, c1 in _py_classes(d, k, role):
+                        lem.append((role, arrname, tagc, idx, c0, c1, arr.fn(idx)))
+                per_axis[k] = lem
+            defs = dict(ex.defs)
+            ctx.obligation(what, True, 'translator')
+        except nps.Refuse as e:
+            ctx.obligation(what, False, 'translator', str(e)); continue
+        except RecursionError as e:
+            ctx.obligation(what, False, 'translator', 'recursion limit'); continue
+        for k in range(d):
+            try:
+                text, names = _py_axis_file(nps, d, k, scal, per_axis[k], defs)
+                files.append(('C02_ob_pyasm_%dD%s' % (d, AX[k]), text, names))
+            except nps.Refuse as e:
+                ctx.obligation('emit the coefficient obligations of %s, axis %s' % (fname, AX[k]), False, 'translator', str(e))
+
+def _py_axis_file(nps, d, k, scal, lemmas, defs):
+    w = _py_wiring(d, k)
+    body = [PY_HDR, 'Section PyAsm.', 'Variable xs : list R.', 'Variables %s : R.' % ' '.join(scal), 'Variable use_delj_trick : bool.',
+            'Notation N := (length xs).', 'Notation dj := use_delj_trick.']
+    names = []
+    # --- elementwise helper summaries (only _compute_delj): one scalar Definition, proved equal to the model's delta_j
+    for cname, (flags, ps, t) in sorted(defs.items()):
+        if cname != 'py__compute_delj' or list(flags) != ['use_delj_trick'] or list(ps) != ['dx', 'MInt', 'VInt']:
+            raise nps.Refuse('unexpected helper summary %s %r %r' % (cname, flags, ps))
+        body.append('Definition %s (use_delj_trick : bool) (dx MInt VInt : R) : R :=\n  %s.' % (cname, nps.term_coq(t)))
+        body.append('Lemma ob_%s : forall dx MInt VInt : R, %s dj dx MInt VInt = delj_parts dj dx MInt VInt.' % (cname, cname))
+        body.append('Proof. intros. unfold %s, delj_parts. destruct dj; [|reflexivity]. cbn zeta.\n'
+                    '  apply (delj_filter_ok (2 * MInt * dx) (exp (2 * MInt * dx / VInt)) VInt); ring. Qed.' % cname)
+        names.append(cname[3:])
+    Vf = '(Vfunc_beta %s %s)' % (w['nu'], w['beta'])
+    for role, arrname, tagc, idx, c0, c1, term in lemmas:
+        os_ = '; '.join('x xs %s' % nps.idx_coq(idx[j]) for j in w['others'])
+        Mf = '(Mfunc [%s] [%s] %s %s)' % ('; '.join(w['ms']), os_, w['gamma'], w['h'])
+        p = idx[k]
+        pi = nps.idx_coq(p)
+        binders = []; hyps = ['(2 <= N)%nat', '(forall p, (S p < N)%nat -> x xs p < x xs (S p))', '%s <> 0' % w['nu']]
+        if d == 1:
+            hyps.append('beta <> 0')       # not validated by the Python code: precondition of the obligation
+        for q in idx:
+            if q[0] in ('s', 'a'):
+                binders.append(q[1])
+            if q[0] == 's':
+                hyps += ['(1 <= %s)%%nat' % q[1], '(%s <= N - 2)%%nat' % q[1]]
+        quant_c = ''
+        if role == 'b' and c0 is None:
+            quant_c = ' (c0 c1 : bool)'; c0, c1 = 'c0', 'c1'
+        gname = 'py%dD%s_%s_%s' % (d, AX[k], role, tagc)
+        body.append('Definition %s %s: R :=\n  %s.' % (gname, ''.join('(%s : nat) ' % b_ for b_ in binders), nps.term_coq(term)))
+        if role == 'a':
+            rhs = 'coef_a xs %s %s dj %s' % (Vf, Mf, pi)
+        elif role == 'c':
+            rhs = 'coef_c xs %s %s dj %s' % (Vf, Mf, pi)
+        else:
+            rhs = 'coef_b0 xs %s %s %s %s %s dj %s' % (Vf, Mf, w['nu'], c0, c1, pi)
+        qs = ' '.join('(%s : nat)' % b_ for b_ in binders) + quant_c
+        body.append('Lemma ob_%s : %s%s ->\n  %s %s = %s.' % (gname, ('forall %s, ' % qs) if qs.strip() else '', ' -> '.join(hyps), gname, ' '.join(binders), rhs))
+        # --- proof script
+        sc = ['intros %s%s Hn Hinc Hnu%s%s.' % (' '.join(binders), ' c0 c1' if quant_c else '', ' Hbeta' if d == 1 else '',
+                                              ''.join(' Hlo_%s Hhi_%s' % (q[1], q[1]) for q in idx if q[0] == 's'))]
+        # grid spacing facts for the intervals that occur
+        pcls = tagc.split('_')[0]
+        iv = {'first': ['0%nat'], 'last': ['(N - 2)%nat'], 'mid': ['(%s - 1)%%nat' % p[1], p[1]] if p[0] == 's' else []}[pcls]
+        for n_, t_ in enumerate(iv):
+            sc.append('pose proof (Hinc %s ltac:(lia)) as Hd%d.' % (t_, n_))
+        if pcls == 'last':
+            sc.append('replace (S (N - 2)) with (N - 1)%nat in Hd0 by lia.')
+        if pcls == 'mid':
+            sc.append('replace (S (%s - 1)) with %s in Hd0 by lia.' % (p[1], p[1]))
+        sc.append('unfold Scheme.x, nthF in %s.' % ', '.join('Hd%d' % n_ for n_ in range(len(iv))))
+        sc.append('unfold %s. rewrite ?ob_py__compute_delj.' % gname)
+        # the delj occurrences: which intervals
+        napp = len(nps.apps_of(term, 'py__compute_delj'))
+        ivd = {('a', 'first'): [], ('a', 'mid'): [iv[0]] if iv else [], ('a', 'last'): iv, ('c', 'first'): iv, ('c', 'mid'): iv[1:], ('c', 'last'): [],
+               ('b', 'first'): iv, ('b', 'mid'): iv, ('b', 'last'): iv}[(role, tagc.split('_')[0])]
+        if napp != len(ivd):
+            raise nps.Refuse('%s: %d applications of _compute_delj where the scheme has %d' % (gname, napp, len(ivd)))
+        for t_ in ivd:
+            sc.append('py_fold_delj xs %s %s dj %s.' % (Vf, Mf, t_))
+        sc.append('unfold %s, dfactor, Scheme.N. py_nat_dec. cbn [andb]. py_idx_norm. pnR.' % {'a': 'coef_a, atemp', 'c': 'coef_c, ctemp', 'b': 'coef_b0, bc0, bc1, atemp, ctemp'}[role])
+        conds = nps.conds_of(term)
+        for c in conds:
+            if c[2] == nps.ZERO:
+                sc.append('py_guard_le0 (%s (x xs 0%%nat)).' % Mf)
+            elif c[1] == nps.ZERO:
+                sc.append('py_guard_ge0 (%s (x xs (N - 1)%%nat)).' % Mf)
+            else:
+                raise nps.Refuse('%s: guard that does not compare with 0' % gname)
+        sc.append('repeat match goal with |- context [Rleb ?a ?b] => destruct (Rleb a b) end;')
+        sc.append('  py_unfold_pointwise; field; py_side.')
+        body.append('Proof.\n  ' + '\n  '.join(sc) + '\nQed.')
+        names.append(gname)
+    body.append('End PyAsm.')
+    return '\n'.join(body) + '\n', names
+
 _CACHE = {}
 
 def obligations(ctx, tag='C02'):
@@ -346,6 +516,7 @@ def obligations(ctx, tag='C02'):
     shared_function_obligations(ctx, files)
     kernel_obligations(ctx, files)
     python_obligations(ctx, files)
+    python_assembly_obligations(ctx, files)
     res = lib.run_case_files([(n.replace('C02', tag), t) for n, t, _ in files], timeout=600)
     for (n, t, names) in files:
         rc, so, se, secs = res[n.replace('C02', tag)]
